@@ -151,7 +151,8 @@ def run_example_case(case, st):
 def checks():
     return [
         HypCheck(
-            'foreign-files', lambda: foreign.docs(), run_defect_case,
+            'foreign-files', lambda: foreign.docs(unknown_options=True),
+            run_defect_case,
             budget={'quick': (16, 150), 'thorough': (16, 4000)},
             rule='well-formed files from an independent spec-derived '
                  'generator (shuffled options, omitted optional options, '
